@@ -66,9 +66,18 @@ class PropertyRun:
                     self.engine_faults.append(f"no normal path through {qual}: its postconditions would be vacuous")
             return vcs
         except (OutOfSubset, ExtractionError) as exc:
-            if not canary:
-                self.undecided.append({"obligation": f"{qual}/*", "reason": f"{type(exc).__name__}: {exc}"})
-            return []
+            if canary:
+                return []
+            # obligations generated before the unsupported construct was reached are kept (they concern path prefixes and are
+            # independent of what follows); everything after it is undecided
+            partial = [v for v in self.ex.vcs if v.func == (label or qual)]
+            self.undecided.append({"obligation": f"{qual}/*", "reason": f"{type(exc).__name__}: {exc}", "kept_obligations": len(partial)})
+            if partial:
+                try:
+                    self.functions[qual] = self.tree.func(qual).source_sha1() + " (partially verified)"
+                except ExtractionError:
+                    pass
+            return partial
 
     def gen_lemma(self, name: str) -> List[VC]:
         lm = S.LEMMAS.get(name)
